@@ -103,10 +103,28 @@ func (s *NameScope) GoTypeDef(att *expr.AttributeExpr, ptr, useDefault bool) str
 	} else if p, ok := att.Meta.Last("struct:pkg:path"); ok && p != "" {
 		pkg = Goify(filepath.Base(p), false)
 	}
-	return s.goTypeDef(att, ptr, useDefault, pkg)
+	return s.goTypeDef(att, ptr, useDefault, pkg, "")
 }
 
-func (s *NameScope) goTypeDef(att *expr.AttributeExpr, ptr, useDefault bool, pkg string) string {
+// GoFullTypeDef returns the same Go code as GoTypeDef except that the user
+// types the definition refers to are qualified with the package name pkg if
+// not empty (and if they do not define their own package). It is used to
+// render inline struct definitions in code that lives outside of the package
+// that defines the user types.
+func (s *NameScope) GoFullTypeDef(att *expr.AttributeExpr, ptr, useDefault bool, pkg string) string {
+	locPkg := ""
+	if loc := UserTypeLocation(att.Type); loc != nil {
+		locPkg = loc.PackageName()
+	} else if p, ok := att.Meta.Last("struct:pkg:path"); ok && p != "" {
+		locPkg = Goify(filepath.Base(p), false)
+	}
+	return s.goTypeDef(att, ptr, useDefault, locPkg, pkg)
+}
+
+// goTypeDef implements GoTypeDef and GoFullTypeDef: pkg is the name of the
+// package that contains the definition, defPkg is the name of the package used
+// to qualify the user types that do not define their own.
+func (s *NameScope) goTypeDef(att *expr.AttributeExpr, ptr, useDefault bool, pkg, defPkg string) string {
 	switch actual := att.Type.(type) {
 	case expr.Primitive:
 		if t, _ := GetMetaType(att); t != "" {
@@ -114,17 +132,17 @@ func (s *NameScope) goTypeDef(att *expr.AttributeExpr, ptr, useDefault bool, pkg
 		}
 		return GoNativeTypeName(actual)
 	case *expr.Array:
-		d := s.goTypeDef(actual.ElemType, ptr, useDefault, pkg)
+		d := s.goTypeDef(actual.ElemType, ptr, useDefault, pkg, defPkg)
 		if expr.IsObject(actual.ElemType.Type) {
 			d = "*" + d
 		}
 		return "[]" + d
 	case *expr.Map:
-		keyDef := s.goTypeDef(actual.KeyType, ptr, useDefault, pkg)
+		keyDef := s.goTypeDef(actual.KeyType, ptr, useDefault, pkg, defPkg)
 		if expr.IsObject(actual.KeyType.Type) {
 			keyDef = "*" + keyDef
 		}
-		elemDef := s.goTypeDef(actual.ElemType, ptr, useDefault, pkg)
+		elemDef := s.goTypeDef(actual.ElemType, ptr, useDefault, pkg, defPkg)
 		if expr.IsObject(actual.ElemType.Type) {
 			elemDef = "*" + elemDef
 		}
@@ -145,7 +163,7 @@ func (s *NameScope) goTypeDef(att *expr.AttributeExpr, ptr, useDefault bool, pkg
 			)
 			{
 				fn = GoifyAtt(at, name, true)
-				tdef = s.goTypeDef(at, ptr, useDefault, pkg)
+				tdef = s.goTypeDef(at, ptr, useDefault, pkg, defPkg)
 				if expr.IsObject(at.Type) ||
 					att.IsPrimitivePointer(name, useDefault) ||
 					(ptr && expr.IsPrimitive(at.Type) && at.Type.Kind() != expr.AnyKind && at.Type.Kind() != expr.BytesKind) {
@@ -165,8 +183,12 @@ func (s *NameScope) goTypeDef(att *expr.AttributeExpr, ptr, useDefault bool, pkg
 			return "struct {}"
 		}
 		var prefix string
-		if loc := UserTypeLocation(actual); loc != nil && loc.PackageName() != pkg {
-			prefix = loc.PackageName() + "."
+		if loc := UserTypeLocation(actual); loc != nil {
+			if loc.PackageName() != pkg {
+				prefix = loc.PackageName() + "."
+			}
+		} else if defPkg != "" {
+			prefix = defPkg + "."
 		}
 		return prefix + s.GoTypeName(att)
 	default:
@@ -241,7 +263,7 @@ func (s *NameScope) GoFullTypeName(att *expr.AttributeExpr, pkg string) string {
 			s.GoFullTypeRef(actual.KeyType, pkgWithDefault(actual.KeyType.Type, pkg)),
 			s.GoFullTypeRef(actual.ElemType, pkgWithDefault(actual.ElemType.Type, pkg)))
 	case *expr.Object:
-		return s.GoTypeDef(att, false, false)
+		return s.GoFullTypeDef(att, false, false, pkg)
 	case expr.UserType, *expr.Union:
 		if actual == expr.ErrorResult {
 			return "goa.ServiceError"
